@@ -198,8 +198,8 @@ func okSimpleContainerContents(in *lisp.LVal, g cycleGuard) error {
 		}
 		return nil
 	case lisp.LArray:
-		if in.Cells[0].Len() > 1 {
-			return errors.New("cannot index multi-dimensional array")
+		if in.Cells[0].Len() != 1 {
+			return errors.New("cannot index zero- or multi-dimensional array")
 		}
 		cells := in.Cells[1].Cells
 		for _, v := range cells {
